@@ -151,9 +151,52 @@ def key_removals(func_node, container):
     return out
 
 
+_ORDER_NEG = {"<": ">=", "<=": ">", ">": "<=", ">=": "<"}
+
+
+def holds(gs, src, total_order=False):
+    """does the guard set (pairs of canonical atom text and polarity) contain the condition `src`?  With
+    total_order (operands known to be ints / non-NaN numbers) `a < b` is also recognised as the false edge of
+    `a >= b`."""
+    want = gp(src)
+    gs = set(gs)
+    if want in gs:
+        return True
+    if total_order:
+        e = ast.parse(src, mode="eval").body
+        if isinstance(e, ast.Compare) and len(e.ops) == 1:
+            sym = {ast.Lt: "<", ast.LtE: "<=", ast.Gt: ">", ast.GtE: ">="}.get(type(e.ops[0]))
+            if sym:
+                neg = "%s %s %s" % (ast.unparse(e.left), _ORDER_NEG[sym], ast.unparse(e.comparators[0]))
+                t, pol = gp(neg)
+                return (t, not pol) in gs
+    return False
+
+
 def guard_pairs(cfg, nid, blocked_edges=()):
     """{(canonical positive atom text, polarity)} guarding a node"""
     return {(utext(g.exprs[0]), pol) for g, pol in cfg.guards(nid, blocked_edges)}
+
+
+class _Expand(ast.NodeTransformer):
+    def __init__(self, func, depth=4):
+        self.func, self.depth = func, depth
+
+    def visit_Name(self, n):
+        if isinstance(n.ctx, ast.Load) and self.depth > 0:
+            d = resolve_local(self.func, n)
+            if d is not n and all(isinstance(x, (ast.Name, ast.Attribute, ast.Subscript, ast.Constant, ast.Load, ast.Tuple))
+                                  for x in ast.walk(d)):
+                import copy as _copy
+                return _Expand(self.func, self.depth - 1).visit(_copy.deepcopy(d))
+        return n
+
+
+def expanded(func, expr):
+    """canonical text of an expression with the function's single-assignment locals that merely name an
+    attribute chain / item lookup replaced by what they name (`blotter` -> `markets.markets[order.market_id].blotter`)"""
+    import copy as _copy
+    return utext(_Expand(func).visit(_copy.deepcopy(expr)))
 
 
 def call_name(call):
